@@ -361,7 +361,7 @@ class IndexedSet(MutableSet):
         "difference_update(*others) -> discard self.intersection(*others)"
         if self in others:
             self.clear()
-        for val in self.intersection(*others):
+        for val in self.difference(self.difference(*others)):
             self.discard(val)
 
     def symmetric_difference_update(self, other):  # note singular 'other'
